@@ -592,6 +592,7 @@ class State:
         self.trace = []
         self.memo = {}
         self.writes = []       # (location, index into events) of writes to non-local memory
+        self.reads = []        # (location, index into events) of field reads of non-local memory
 
     def fork(self):
         s = State()
@@ -603,6 +604,7 @@ class State:
         s.trace = list(self.trace)
         s.memo = dict(self.memo)
         s.writes = list(self.writes)
+        s.reads = list(self.reads)
         return s
 
 
@@ -615,6 +617,7 @@ class Path:
         self.trace = st.trace
         self.mem = st.mem
         self.writes = st.writes
+        self.reads = st.reads
 
     def names(self):
         return [e.name for e in self.events]
@@ -776,6 +779,8 @@ class Engine:
 
     def load(self, st, loc, ty=None):
         loc = self._redirect(st, loc)
+        if loc and isinstance(loc[0], tuple) and loc[0][0] == "o" and len(loc) >= 3:
+            st.reads.append((loc, len(st.events)))
         n = len(loc)
         out = {}
         for k, v in st.mem.items():
@@ -1432,6 +1437,11 @@ class Engine:
             return None
         st.frames.pop()
         caller = st.frames[-1]
+        if frame.get("wrap") == "Some":
+            wrapped = {("disc",): z3.IntVal(1)}
+            for k, v in ret.items():
+                wrapped[(("v", "Some"), ("f", 0)) + k] = v
+            ret = wrapped
         if frame["dest"] is not None:
             self.store(st, frame["dest"], ret)
         st.events.append(Event("ret:" + frame.get("evname", "?"), [], ret, (frame["body"].name, ""), "ret"))
@@ -1579,6 +1589,33 @@ class Engine:
                 if len(st.frames) < self.max_depth + 4:
                     return self.inline_call(st, frame, body, dest_loc, ret_bb, argvals, closure_env=(env, envref),
                                             evname="closure@" + cl.loc.split(":")[0] + ":" + cl.loc.split(":")[1])
+        # 5b. Option::map / and_then with a known closure: None stays None, Some(x) runs the closure
+        m = re.match(r"^(?:std::option::|core::option::)?Option::<.*>::(map|and_then)::<", callee.strip())
+        if m and len(argvals) == 2 and getattr(self, "inline_option_closures", True):
+            clv = argvals[1].get(("closure",))
+            opt = argvals[0]
+            if isinstance(clv, Closure) and clv.loc in self.prog.closure_by_loc and len(st.frames) < self.max_depth + 4:
+                d = self._disc_of(st, opt, "Option<>")
+                body = self.prog.closure_by_loc[clv.loc].parse()
+                if self.feasible(st.cond, d == 0):
+                    s2 = st.fork()
+                    s2.cond.append(d == 0)
+                    if dest_loc is not None:
+                        self.store(s2, dest_loc, {("disc",): z3.IntVal(0)})
+                    if ret_bb is not None:
+                        self.work.append((s2, ret_bb))
+                if self.feasible(st.cond, d == 1):
+                    st.cond.append(d == 1)
+                    payload = {k[2:]: v for k, v in opt.items() if k[:2] == (("v", "Some"), ("f", 0))}
+                    if not payload:
+                        payload = {(): self._payload(st, opt, ("v", "Some"), "map")}
+                    tup = {(("f", 0),) + k: v for k, v in payload.items()}
+                    r = self.inline_call(st, frame, body, dest_loc, ret_bb, [argvals[1], tup],
+                                         closure_env=(argvals[1], None),
+                                         evname="closure@" + clv.loc.split(":")[0] + ":" + clv.loc.split(":")[1])
+                    st.frames[-1]["wrap"] = "Some" if m.group(1) == "map" else None
+                    return r
+                return None
         # 6. inlining of crate functions
         if any(p.search(plain) or p.search(callee) for p in self.inline):
             body = self.prog.resolve_callee(callee)
